@@ -19,6 +19,11 @@ for name in ['update_base_hostname', 'update_base_username', 'update_base_passwo
     editor(name, ['agg_' + name], extra_globals=FRAG if name == 'update_unencoded_base_hash' else ())
     editor(name, ['agg_' + name], cap=14, bufn=5, tier='thorough', timeout=3600, extra_globals=FRAG if name == 'update_unencoded_base_hash' else ())
 
+DFL = [('url_aggregator_default', '@default')]
+for name in ['append_base_password', 'update_base_authority', 'copy_scheme']:
+    editor(name, ['agg_' + name], extra_globals=DFL)
+    editor(name, ['agg_' + name], cap=14, bufn=5, tier='thorough', timeout=3600, extra_globals=DFL)
+
 GETTERS = ['agg_get_protocol', 'agg_get_username', 'agg_get_password', 'agg_get_host', 'agg_get_hostname', 'agg_get_port', 'agg_get_pathname',
            'agg_get_search', 'agg_get_hash', 'agg_get_href', 'agg_get_href_size', 'agg_has_search', 'agg_has_hash', 'agg_has_port', 'agg_has_password',
            'agg_has_hostname', 'agg_has_authority', 'agg_has_non_empty_username', 'agg_has_non_empty_password', 'agg_has_credentials',
